@@ -16,16 +16,27 @@ package c14
 // without physically-destroyed), UpStore, SetStoreWeight, UpdateStoreLabels — 1 or 2 of them —
 // and a store heartbeat of the same store (persisting: first heartbeat since the record was
 // loaded / more than 5 minutes after the last persist; or not persisting).
+// mode "spin": 1-2 background goroutines keep calling the cache-level store entry points that
+// real callers use WITHOUT the cluster lock — AttachAvailableFunc (operator controller, once
+// per store and limit type after every restart / limit re-creation; one caller at a time as
+// under the operator-controller lock) and Pause/ResumeLeaderTransfer (evict-/grant-leader
+// schedulers) — on all stores, while the main goroutine runs a sequential lifecycle history of
+// 60-200 operations through the lifecycle runner: after every operation (spinners running) and
+// at the end (spinners joined) served == stored == model. Those entry points never change a
+// lifecycle field, so the sequential model is exact whatever the interleaving. Not shrinkable
+// by schedule; the report carries the op index, the op and the case.
 
 import (
 	"fmt"
 	"sort"
 	"strings"
+	"sync"
 	"time"
 
 	"github.com/pingcap/kvproto/pkg/metapb"
 	"github.com/pingcap/kvproto/pkg/pdpb"
 	"github.com/tikv/pd/server/core"
+	"github.com/tikv/pd/server/core/storelimit"
 	"pdverif/vkit"
 	"pgregory.net/rapid"
 )
@@ -43,6 +54,9 @@ type RaceCase struct {
 	Ops          []string `json:"ops,omitempty"`          // 1-2 of check, remove, removeD, up, weight, labels
 	Hb           string   `json:"hb,omitempty"`           // "", persist, nopersist
 	Order        []int    `json:"order,omitempty"`        // queue order: permutation of the participants (ops..., hb last index)
+	// spin mode
+	Spinners int   `json:"spinners,omitempty"`
+	History  *Case `json:"history,omitempty"`
 }
 
 var raceOps = []string{"check", "check", "check", "remove", "removeD", "removeD", "up", "up", "weight", "labels"}
@@ -64,8 +78,11 @@ func genRace(t *rapid.T) RaceCase {
 			c.StayUp = append(c.StayUp, i)
 		}
 	}
-	if rapid.IntRange(0, 3).Draw(t, "mode") == 0 {
+	switch rapid.IntRange(0, 5).Draw(t, "mode") {
+	case 0:
 		return c // park
+	case 1, 2:
+		return genSpin(t)
 	}
 	c.Mode = "lock"
 	c.TargetState = rapid.SampledFrom([]string{"off", "off", "off", "up", "up", "offD"}).Draw(t, "targetState")
@@ -94,6 +111,77 @@ func genRace(t *rapid.T) RaceCase {
 	return c
 }
 
+var spinKinds = []string{"remove", "remove", "remove", "remove", "up", "up", "up", "up", "check", "weight", "labels", "putSame", "putNew"}
+
+func genSpin(t *rapid.T) RaceCase {
+	h := &Case{Init: rapid.IntRange(3, 5).Draw(t, "init")}
+	n := rapid.IntRange(60, 200).Draw(t, "nOps")
+	for i := 0; i < n; i++ {
+		op := Op{Kind: rapid.SampledFrom(spinKinds).Draw(t, "kind"), Pick: rapid.IntRange(0, 15).Draw(t, "pick")}
+		switch op.Kind {
+		case "remove":
+			op.Want = genWant(t, "up", "up", "up", "off", "")
+			op.Destroyed = rapid.IntRange(0, 5).Draw(t, "destroyed") == 0
+		case "up":
+			op.Want = genWant(t, "off", "off", "off", "tomb", "")
+		case "weight":
+			op.LW = rapid.IntRange(0, len(weights)-1).Draw(t, "lw")
+			op.RW = rapid.IntRange(0, len(weights)-1).Draw(t, "rw")
+		case "labels":
+			op.Force = rapid.Bool().Draw(t, "force")
+			op.Labels = genLabels(t, false, !op.Force)
+		case "putSame":
+			op.Want = "live"
+			op.Addr = rapid.SampledFrom([]string{"keep", "new"}).Draw(t, "addr")
+			op.Labels = genLabels(t, false, true)
+		case "putNew":
+			op.Labels = genLabels(t, false, false)
+		}
+		h.Ops = append(h.Ops, op)
+	}
+	return RaceCase{Mode: "spin", Spinners: rapid.IntRange(1, 2).Draw(t, "spinners"), History: h}
+}
+
+// startSpinners: spinner 0 attaches availability callbacks, spinner 1 pauses / resumes leader
+// transfer, both cycling over store ids 1..maxID until stopped. Returns stop-and-join.
+func startSpinners(f *fixture, maxID uint64, n int) func() {
+	rc := f.rc
+	stop := make(chan struct{})
+	var wg sync.WaitGroup
+	avail := func() bool { return true }
+	spin := func(body func(id uint64, k int)) {
+		defer wg.Done()
+		for k := 0; ; k++ {
+			select {
+			case <-stop:
+				return
+			default:
+			}
+			body(uint64(k)%maxID+1, k)
+		}
+	}
+	wg.Add(1)
+	go spin(func(id uint64, k int) {
+		typ := storelimit.AddPeer
+		if (k/int(maxID))%2 == 1 {
+			typ = storelimit.RemovePeer
+		}
+		rc.AttachAvailableFunc(id, typ, avail)
+	})
+	if n > 1 {
+		wg.Add(1)
+		go spin(func(id uint64, k int) {
+			if (k/int(maxID))%2 == 0 {
+				_ = rc.PauseLeaderTransfer(id)
+			} else {
+				rc.ResumeLeaderTransfer(id)
+			}
+		})
+	}
+	var once sync.Once
+	return func() { once.Do(func() { close(stop); wg.Wait() }) }
+}
+
 func has(xs []int, x int) bool {
 	for _, v := range xs {
 		if v == x {
@@ -105,6 +193,24 @@ func has(xs []int, x int) bool {
 
 func runRace(c RaceCase) (vkit.Info, error) {
 	var info vkit.Info
+	if c.Mode == "spin" {
+		if c.History == nil {
+			return info, fmt.Errorf("harness: spin case without a history")
+		}
+		hi, err := runHistory(*c.History, c.Spinners)
+		if err != nil {
+			return info, fmt.Errorf("spin mode (%d background goroutine(s) calling AttachAvailableFunc / Pause-ResumeLeaderTransfer): %v", c.Spinners, err)
+		}
+		info.Class("mode-spin")
+		info.Class(fmt.Sprintf("spinners-%d", c.Spinners))
+		for _, cl := range hi.Classes {
+			if cl == "buried" || cl == "offline->up" || cl == "physically-destroyed" {
+				info.Class("spin-" + cl)
+			}
+		}
+		info.NonTrivial = true
+		return info, nil
+	}
 	f, err := newFixture(Case{})
 	if err != nil {
 		return info, fmt.Errorf("fixture: %v", err)
